@@ -300,7 +300,7 @@ func (f *Field[T]) Lookup2(b0, b1 frontend.Variable, a, b, c, d *Element[T]) *El
 	bNormLimbs := normalize(b.Limbs)
 	cNormLimbs := normalize(c.Limbs)
 	dNormLimbs := normalize(d.Limbs)
-	for i := range a.Limbs {
+	for i := range e.Limbs {
 		e.Limbs[i] = f.api.Lookup2(b0, b1, aNormLimbs[i], bNormLimbs[i], cNormLimbs[i], dNormLimbs[i])
 	}
 	return e
@@ -354,7 +354,7 @@ func (f *Field[T]) Mux(sel frontend.Variable, inputs ...*Element[T]) *Element[T]
 		}
 	}
 	e := f.newInternalElement(make([]frontend.Variable, nbLimbs), overflow)
-	for i := range inputs[0].Limbs {
+	for i := range e.Limbs {
 		e.Limbs[i] = selector.Mux(f.api, sel, normLimbsTransposed[i]...)
 	}
 	return e
